@@ -1,6 +1,7 @@
 #!/bin/sh
 # usage: tools_try_mutant.sh <patch.diff> <check-id> [extra args]   -- applies to /repo, runs check, reverts
 p="$1"; id="$2"; shift 2
+case "$p" in /*) ;; *) p="$(pwd)/$p" ;; esac
 cd /repo || exit 2
 git diff --quiet || { echo "repo dirty"; exit 2; }
 if ! git apply --check "$p" 2>/dev/null; then echo "PATCH-DOES-NOT-APPLY $p"; exit 3; fi
